@@ -798,6 +798,10 @@ def get_rdata_class(rdclass, rdtype, use_generic=True):
     cls = _rdata_classes.get((rdclass, rdtype))
     if not cls:
         cls = _rdata_classes.get((dns.rdataclass.ANY, rdtype))
+        if cls is GenericRdata:
+            # The generic fallback memoized for a lookup in class ANY itself
+            # says nothing about other classes.
+            cls = None
         if not cls and _dynamic_load_allowed:
             rdclass_text = dns.rdataclass.to_text(rdclass)
             rdtype_text = dns.rdatatype.to_text(rdtype)
